@@ -4,6 +4,7 @@ import (
 	"fmt"
 	"strings"
 	"sync"
+	"time"
 
 	"github.com/indexsupply/shovel/eth"
 	"github.com/indexsupply/shovel/jrpc2"
@@ -115,6 +116,7 @@ func runC01(e *core.Env) error {
 			if err != nil {
 				return err
 			}
+			useCache := rr.Chance(1, 3)
 			var ig1 config.Integration
 			switch rr.Intn(6) {
 			case 0:
@@ -138,6 +140,15 @@ func runC01(e *core.Env) error {
 			case 1:
 				start = uint64(1 + rr.Intn(3))
 			}
+			if useCache && start > 0 {
+				// the client's caches ON: a step that fails after loading leaves its blocks in the segment
+				// cache, and the retry attaches logs / receipts / traces to those same blocks again.
+				// (with a configured start only: a cached head may lag, which moves a head-mode start)
+				w.client = jrpc2.New(w.node.URL()).WithMaxReads(2 + rr.Intn(3)).WithPollDuration(time.Hour)
+				w.tags["caching-client"]++
+			} else {
+				useCache = false
+			}
 			t, err := w.addTask("t1", root.Integrations[0], "src1", start, 0, pr.b, pr.c)
 			if err != nil {
 				w.close()
@@ -148,6 +159,7 @@ func runC01(e *core.Env) error {
 			s := uint64(0) // initial position; fixed by the first successful read of the start
 			sKnown := false
 			nOps := 6 + rr.Intn(8)
+			quietRun := 0
 			for i := 0; i < nOps+40 && !w.dead; i++ {
 				settle := i >= nOps // faults and growth stop; run to quiescence
 				op := rr.Intn(10)
@@ -183,7 +195,13 @@ func runC01(e *core.Env) error {
 						}
 					}
 					if settle && (out == "nothing-new" || out == "ahead") {
-						i = nOps + 40
+						quietRun++
+						// (a cached head may lag for max-reads reads: several quiet steps in a row)
+						if !useCache || quietRun >= 6 {
+							i = nOps + 40
+						}
+					} else {
+						quietRun = 0
 					}
 				}
 				if sKnown {
